@@ -31,6 +31,13 @@ ENGINES = [
      "insert": [[".", True, "within", "binary_right", True], ["in", True, "mod2", "binary", False]], "remove": []},
 ]
 
+ENGINES += [
+    {"label": "is+xor", "base": "default", "keyword_operator": "=>",
+     "insert": [["in", True, "is", "binary", False], ["or", True, "xor", "binary", False]], "remove": []},
+    {"label": "legacy+isnt", "base": "legacy", "keyword_operator": None,
+     "insert": [["not", False, "isnt", "prefix", False]], "remove": []},
+]
+
 PLAIN_WORDS = ["a", "abc", "x1", "_x", "True", "nul", "inn", "And", "containss", "résumé", "x__y"]
 
 
@@ -155,8 +162,56 @@ def run_scenario(scn):
     return failures
 
 
+def totality_texts(words):
+    """every word of every operator table seen in the process, as a plain identifier, a member name, a method name, a
+    keyword-argument name, an operand, a function argument ..."""
+    out = []
+    for w in words:
+        out += [w, "$." + w, "$." + w + "()", "x." + w + ".y", "dict(" + w + " => 1)", "f(" + w + " => " + w + ")", "a " + w + " b",
+                w + " 1", "1 " + w, "(" + w + " 1)", "[" + w + ", " + w + "]", "f(" + w + " $)", w + " " + w + " " + w, w + "(1)",
+                "not " + w, "- " + w, "{" + w + " => " + w + "}", "$x -> " + w, w + " and " + w + " or not " + w]
+    return out
+
+
+def totality_failure(engine, text):
+    """None, or why engine(text) fails C03's predicate"""
+    from yaql.language import exceptions, expressions
+    try:
+        r = engine(text)
+    except exceptions.YaqlParsingException as e:
+        pos = getattr(e, "position", None)
+        if pos is not None and not (isinstance(pos, int) and 0 <= pos < len(text)):
+            return "reported error position %r is outside the text of length %d" % (pos, len(text))
+        return None
+    except BaseException as e:    # noqa
+        return "an exception that is not a YaqlParsingException escapes the parser: %s" % type(e).__name__
+    if not isinstance(r, expressions.Statement):
+        return "engine(text) returned %r" % type(r).__name__
+    return None
+
+
+def run_totality(scn):
+    """engines of different factories created in `order` in this process; every engine is tested right after its creation
+    and again after all the others exist"""
+    specs = scn["engines"]
+    texts = totality_texts(scn["words"]) + list(scn.get("texts", []))
+    engines, failures, created = {}, [], []
+    for phase in ("as created", "after all were created"):
+        for i in scn["order"]:
+            if i not in engines:
+                engines[i] = build(specs[i])
+                created.append(specs[i]["label"])
+            for t in texts:
+                why = totality_failure(engines[i], t)
+                if why:
+                    failures.append({"engine": specs[i]["label"], "engine_index": i, "text": t, "why": why, "phase": phase,
+                                     "engines_created_so_far": list(created)})
+                    break
+    return failures
+
+
 if __name__ == "__main__":
     import warnings
     warnings.simplefilter("ignore")
     scenario = json.load(sys.stdin)
-    json.dump(run_scenario(scenario), sys.stdout)
+    json.dump(run_totality(scenario) if scenario.get("mode") == "totality" else run_scenario(scenario), sys.stdout)
